@@ -35,6 +35,7 @@ def dispatch (st : DState) (line : String) : DState × String :=
   | "c05oracle" :: args => (st, withArt st args fun a _ => some (opC05 a))
   | "lritems" :: args => (st, withArt st args fun a _ => some (opLRItems a))
   | "validate" :: args => (st, withArt st args fun a _ => some (opValidate a))
+  | "semspec" :: args => (st, withArt st args fun a _ => some (opSemSpec a))
   | "semcheck" :: args => (st, withArt st args fun a _ => some (opSemCheck a))
   | "earley" :: args => (st, withArt st args opEarley)
   | "tree" :: args => (st, withArt st args opTree)
